@@ -40,6 +40,7 @@ def replay(e, backend, real_t, arena="contig"):
     D = len(shape)
     rt = np.float64 if backend == "exact" else real_t
     ar = kernels.Arena(arena)
+    kernels.FIXED_GRID[0] = shape if arena != "contig" else None      # strided replays also pass `fixed_grid_size`, as the simulators do
     mk = (lambda a: shim.frac_array(a)) if backend == "exact" else (lambda a: ar.make(np.asarray(a), real_t))
     num = (lambda x: Fraction(x)) if backend == "exact" else (lambda x: real_t(x))
     G = lambda n, **kw: kernels.gen(n, rt, **kw)  # noqa: E731
@@ -104,6 +105,7 @@ def replay(e, backend, real_t, arena="contig"):
         G("gen_update_vorticity_from_velocity_forcing_pyst_kernel_2d")(vorticity_field=b, velocity_forcing_field=mk(vf - W), prefactor=num(3))
         if nz(a - b):
             errs.append("penalised-velocity update != forcing update of the difference")
+    kernels.FIXED_GRID[0] = None
     if not ar.guards_intact():
         errs.append("a kernel wrote outside the view it was given")
     return errs
@@ -151,6 +153,7 @@ def run(chk: core.Check):
                 try:
                     errs = replay(e, backend, real_t, arena)
                 except Exception as ex:
+                    kernels.FIXED_GRID[0] = None
                     errs = [f"exception {type(ex).__name__}: {ex}"]
                 chk.traces += 1
                 chk.count((key, shape, backend, real_t.__name__, arena))
